@@ -11,6 +11,7 @@ read back exactly.
 """
 import itertools
 import os
+import re
 
 from vx.core import px, pool, terms
 
@@ -155,12 +156,25 @@ def _bound_default(tier):
 
 NSOUP = {"quick": 32, "thorough": 64}
 
+# family "bq": token strings with back-quoted tokens (a lexical error in the default flag setting) next to
+# each other, to other tokens and to the end dot, so that a clause holds several lexical errors
+BQ_TOKENS = ["a", "X", "1", "`x`", "`y`", "(", ")", ",", "=", " ", ":-", "1_", "[", "|"]
+
+
+def bq_soups(tier):
+    for n in range(1, 5 if tier == "quick" else 6):
+        for t in itertools.product(BQ_TOKENS if n <= 4 else BQ_TOKENS[:9], repeat=n):
+            if any(x.startswith("`") for x in t):
+                yield "".join(t)
+                yield "".join(t) + " "      # no layout before the end dot / layout before it comes from TAIL
+
 
 NVSOUP = {"quick": 4, "thorough": 8}
 
 
 def shards(tier):
     sh = [("soup", k, NSOUP[tier], "default") for k in range(NSOUP[tier])]
+    sh += [("bq", k, 8, "default") for k in range(8)]
     for i in range(0, len(CORPUS), 4):
         sh.append(("mut", i, min(i + 4, len(CORPUS)), "default"))
     for tb in VARIANTS:
@@ -192,11 +206,15 @@ SYMBOL = set("#$&*+-./:<=>?@^~\\")
 LAYOUT = set(" \t\n\r")
 
 
+# a back-quoted token whose content is alphanumeric: its extent is unambiguous (no escapes, no dots)
+_BQ = re.compile(r"`[A-Za-z0-9]*`")
+
+
 def flags(text):
     f = []
     if "\x01" in text:
         f.append("ctrl")
-    if any(c in text for c in "'\"`"):
+    if any(c in text for c in "'\"") or "`" in _BQ.sub("", text):
         f.append("quote")
     if "%" in text or "/*" in text:
         f.append("comment")
@@ -221,6 +239,8 @@ def segments(text):
                 segs.append(text[start:j])
                 start = j
             i = j
+        elif c == "`":
+            i = _BQ.match(text, i).end()
         elif c.isdigit():
             j = i
             while j < n and text[j].isdigit():
@@ -373,6 +393,11 @@ def _run_shard(w, shard, tier, table):
         _, k, n, _t = shard
         src = vsoups(tier) if variant else soups(tier)
         items = (("soup", s, s + TAIL) for i, s in enumerate(src) if i % n == k)
+        cap = 16
+    elif shard[0] == "bq":
+        _, k, n, _t = shard
+        # the end dot directly after the last token, and after a blank
+        items = (("bq", s, s + TAIL[1:]) for i, s in enumerate(bq_soups(tier)) if i % n == k)
         cap = 16
     else:
         _, lo, hi, _t = shard
